@@ -265,12 +265,12 @@ package geometry
 //@ spec func sClosed(s Series) bool { ite(isBS(s), bsClosed(s), true) }
 //@ spec func sConvex(s Series) bool { ite(isBS(s), bsConvex(s), true) }
 //@ spec func sClockwise(s Series) bool { ite(isBS(s), bsClockwise(s), false) }
-//@ spec func SeriesInv(s Series) bool { (isBS(s) && IndexInv(s)) || isRectS(s) }
+//@ spec func SeriesInv(s Series) bool { (isBS(s) && IndexInv(s) && bsNpts(s) >= 0) || isRectS(s) }
 
 //@ func Series.NumPoints
 //@   props C18 C01
 //@   requires SeriesInv(self)
-//@   ensures result == sNpts(self)
+//@   ensures result == sNpts(self) && result >= 0
 //@ func Series.PointAt
 //@   props C18 C01
 //@   requires SeriesInv(self) && 0 <= index && index < sNpts(self)
